@@ -1763,6 +1763,22 @@ def check_grid_transfer(ck, fn):
                     continue
                 ck.ob("E2.cell-index", "%s/%s.prepare(evaluator)" % (fkey, render(obj)), so is not None and so == sa,
                       "%s (side %s) prepared with %s (side %s)" % (render(obj), so, render(a), sa), fn.file, c.get("l"))
+                # prepare order: the evaluator handed over must itself have been prepared for the cell of THIS iteration
+                tp = rs.path(a)
+                il_ = innermost_loop(par, c)
+                tprep = [p_ for p_ in calls if p_.get("k") == "MCall" and callee_name(p_) == "prepare" and len(p_.get("a", [])) == 1 and p_ is not c
+                         and rs.path(p_.get("obj")) == tp and innermost_loop(par, p_) is il_]
+                okey = "%s/%s.prepare(%s)" % (fkey, render(obj), render(a))
+                if any(fn.cfg.stmt_dominates(p_["i"], c["i"]) for p_ in tprep):
+                    ck.ob("E7.prepare-order", okey, True, "%s.prepare(cell) dominates %s.prepare(%s) in the same loop iteration" % (render(a), render(obj), render(a)), fn.file, c.get("l"))
+                elif tprep and all(fn.cfg.stmt_dominates(c["i"], p_["i"]) for p_ in tprep):
+                    ck.ob("E7.prepare-order", okey, False, "%s is prepared from %s at line %s BEFORE %s.prepare(cell) at line %s of the same iteration: the space evaluator is set up for "
+                          "the cell of the previous iteration (wrong for every evaluator whose prepare() reads the trafo evaluator's cell data: non-parametric / isoparametric "
+                          "elements; a no-op only for Lagrange-type evaluators)" % (render(obj), render(a), c.get("l"), render(a), tprep[0].get("l")), fn.file, c.get("l"))
+                else:
+                    other_ = dfl.unmodelled_mutable_uses(fn, rs, tp, modelled=("prepare", "finish", "operator()"))
+                    ck.incomplete("E7.prepare-order", "%s: no %s.prepare(cell) that dominates it in the same loop iteration was found%s" % (
+                        okey, render(a), " (the evaluator is handed to %s, which is not modelled)" % render(other_[0])[:40] if other_ else " (conditional / different loop)"))
                 continue
             kd = g.kind(a)
             if so is None or kd is None or kd[0] == "loop?":
@@ -2570,6 +2586,9 @@ def declare_rules(ck):
             "M^-1*N is wrong for every non-commuting pair, i.e. every element with more than one local dof", 13)
     ck.rule("E7.weight-per-projection", "the weight vector receives exactly one scatter of an all-ones local vector per inverted local mass matrix (same innermost loop), so that "
             "weight(dof) = number of local projections added to the row of that dof", 13)
+    ck.rule("E7.prepare-order", "GridTransfer assemblers: every space_eval.prepare(trafo_eval) is dominated, within the same loop iteration, by trafo_eval.prepare(cell) — the space "
+            "evaluator is set up from the trafo evaluator of the CURRENT cell (the documented evaluator protocol prepare(cell) -> prepare(trafo_eval) -> ... -> finish). Broken (order "
+            "swapped) => evaluators whose prepare() reads cell data (non-parametric discontinuous P1 on quads / hexas) use the previous cell", 26)
     ck.rule("E7.local-accumulator-reset", "GridTransfer assemblers: a local Tiny matrix / vector that is accumulated into (X(i,j) += ..., GatherAxpy(X, mapping) — an axpy, not an "
             "assignment) and consumed (inverted, multiplied, scattered) is reset (format() / assigned as a whole) inside the innermost loop that contains both the accumulation and the "
             "consumer, before the accumulation. Broken (reset hoisted out of the cell loop) => from the second cell on the local still holds the sum over the cells visited so far: wrong "
